@@ -11,10 +11,16 @@
 //!   {"parse":"ok"|"err", "ast":"…", "und":[…], "nested":[…], "reads":[[…],…], "outcome":[…],
 //!    "kinds":{…}, "recursive":bool, "selfref":[macro names referenced in their own body]}
 //!
-//! usage: c18 gen <quick|thorough>     generated templates (seeded by VERIF_SEED) + fixed corpus
-//!        c18 one <hex source>         replay a single template
-//!        c18 text <template source>   same, source given literally
-use minijinja::machinery::{ast, parse, WhitespaceConfig};
+//! A case whose source starts with `#expr# ` is a bare expression and goes through
+//! `Environment::compile_expression` / `Expression::undeclared_variables` / `Expression::eval`.
+//!
+//! usage: c18 gen <quick|thorough>     fixed corpus + generated cases (seeded by VERIF_SEED); the cases
+//!                                     run in worker processes (`c18 worker <tier> <start>`), a case that
+//!                                     aborts the process is reported as {"parse":"abort"}
+//!        c18 srcs <quick|thorough>    only the hex sources of the sequence
+//!        c18 one <hex source>         replay a single case
+//!        c18 text <source>            same, source given literally
+use minijinja::machinery::{ast, parse, parse_expr, WhitespaceConfig};
 use minijinja::value::{Enumerator, Kwargs, Object, ObjectRepr, Rest, Value};
 use minijinja::{Environment, Error, State, UndefinedBehavior};
 use mjh::*;
@@ -155,7 +161,7 @@ fn mk_env() -> Environment<'static> {
     // instruction for the error report; that is not name resolution of the template.
     env.set_debug(false);
     env.set_fuel(Some(20_000));
-    env.set_recursion_limit(60);
+    env.set_recursion_limit(40);
     fn eat(kwargs: &Kwargs) {
         for k in kwargs.args().collect::<Vec<_>>() {
             let _ = kwargs.get::<Value>(k);
@@ -708,6 +714,17 @@ impl Gen {
             self.expr(d)
         }
     }
+    /// right-hand side for `set ns.attr = …`: must not mention `ns` (a namespace that contains
+    /// itself cannot be rendered: unbounded recursion in the engine)
+    fn expr_no_ns(&mut self, d: u32) -> String {
+        for _ in 0..20 {
+            let e = self.expr(d);
+            if !e.split(|c: char| !(c.is_alphanumeric() || c == '_')).any(|w| w == "ns") {
+                return e;
+            }
+        }
+        "1".to_string()
+    }
     fn postfix_base(&mut self, d: u32) -> String {
         if self.rng.chance(3, 5) {
             self.name().to_string()
@@ -747,7 +764,11 @@ impl Gen {
             let name = self.target_name();
             if defaults || self.rng.chance(1, 2) {
                 defaults = true;
-                parts.push(format!("{}={}", name, self.expr(d + 2)));
+                if self.rng.chance(1, 5) {
+                    parts.push(format!("{}={}", name, self.target_name()));
+                } else {
+                    parts.push(format!("{}={}", name, self.expr(d + 2)));
+                }
             } else {
                 parts.push(name.to_string());
             }
@@ -819,7 +840,7 @@ impl Gen {
             }
             15..=18 => {
                 if self.rng.chance(1, 12) {
-                    format!("{{% set ns.{} = {} %}}", self.rng.pick(&ATTRS), self.expr(1))
+                    format!("{{% set ns.{} = {} %}}", self.rng.pick(&ATTRS), self.expr_no_ns(1))
                 } else if self.rng.chance(1, 6) {
                     format!("{{% set {} = {}, {} %}}", self.target(), self.expr(1), self.expr(1))
                 } else {
@@ -838,7 +859,13 @@ impl Gen {
             23 | 24 => {
                 let name = *self.rng.pick(&MACROS);
                 let params = self.macro_params(d);
-                format!("{{% macro {}({}) %}}{}{{% endmacro %}}", name, params, self.body(d + 1, false, true))
+                let decl = format!("{{% macro {}({}) %}}{}{{% endmacro %}}", name, params, self.body(d + 1, false, true));
+                // usually call it right away, mostly with few arguments so that defaults run
+                match self.rng.below(4) {
+                    0 => decl,
+                    1 => format!("{}{{{{ {}({}) }}}}", decl, name, self.args(1)),
+                    _ => format!("{}{{{{ {}() }}}}", decl, name),
+                }
             }
             25 => {
                 let params = if self.rng.chance(1, 2) { format!("({})", self.macro_params(d)) } else { String::new() };
@@ -851,7 +878,7 @@ impl Gen {
             }
             27 if in_loop => (*self.rng.pick(&["{% continue %}", "{% break %}"])).to_string(),
             27 => format!("{{{{ {} }}}}", self.expr(0)),
-            28 => format!("{{% set ns = namespace() %}}{{% set ns.{} = {} %}}", self.rng.pick(&ATTRS), self.expr(1)),
+            28 => format!("{{% set ns = namespace() %}}{{% set ns.{} = {} %}}", self.rng.pick(&ATTRS), self.expr_no_ns(1)),
             _ => {
                 let m = *self.rng.pick(&MACROS);
                 format!("{{{{ {}({}) }}}}", m, self.args(1))
@@ -902,6 +929,17 @@ const CORPUS: &[&str] = &[
     "{% for x in y %}{{ x }}{% set x = q %}{{ x }}{% endfor %}",
     "{{ x is t(y) }}{{ x|f(y, k=z) }}",
     "{{ x }}{% set x = 1 %}{{ x }}",
+    "{% macro m(a=a) %}{{ a }}{% endmacro %}{{ m() }}",
+    "{% macro m(a=b, b=c) %}{{ a }}{% endmacro %}{{ m() }}",
+    "{% set q = 1 %}{% macro m() %}{% macro q() %}{{ q }}{% endmacro %}{{ q() }}{% endmacro %}{{ m() }}",
+    "{% for x in y|l %}{% macro m() %}{{ loop.index }}{{ x }}{% endmacro %}{{ m() }}{% endfor %}",
+    "{% macro m() %}{% for i in z|l %}{{ loop.index }}{% endfor %}{{ loop }}{% endmacro %}{{ m() }}",
+    "{% macro m() %}{{ caller(1) }}{% endmacro %}{% call(u) m() %}{{ u }}{{ v }}{% endcall %}",
+    "{% macro m() %}{% set x = x %}{% endmacro %}{% set x = 1 %}{{ m() }}",
+    "{% if c %}{% macro m() %}{{ x }}{% endmacro %}{% endif %}{{ m() }}",
+    "{% with x = 1 %}{% macro m() %}{{ x }}{{ y }}{% endmacro %}{{ m() }}{% endwith %}{{ m }}",
+    "#expr# [foo, bar.baz]",
+    "#expr# foo[a:b] ~ loop ~ self ~ self.x() ~ loop(q)",
 ];
 
 // ------------------------------------------------------------------------------------------------
@@ -926,17 +964,37 @@ fn fnv(s: &str) -> u64 {
     h
 }
 
+/// a case that starts with this marker is a bare expression (`Environment::compile_expression`,
+/// `Expression::undeclared_variables`, `Expression::eval`) instead of a template
+const EXPR_MARK: &str = "#expr# ";
+
 /// The contexts are derived from the source text alone, so a case replays from its hex.
-fn run_one(src: &str) -> String {
-    let seed = fnv(src);
+fn run_one(full_src: &str) -> String {
+    let seed = fnv(full_src);
+    let (is_expr, src) = match full_src.strip_prefix(EXPR_MARK) {
+        Some(rest) => (true, rest),
+        None => (false, full_src),
+    };
     let mut fields: Vec<String> = Vec::new();
     // 1. real parser -> AST dump
     let parsed = guarded(|| {
-        parse(src, "t", Default::default(), WhitespaceConfig::default()).map(|ast| {
-            let mut d = Dump::default();
-            d.stmt(&ast);
-            d
-        })
+        if is_expr {
+            // Expression::undeclared_variables analyses `Stmt::EmitExpr { expr }`
+            parse_expr(src).map(|e| {
+                let mut d = Dump::default();
+                d.tok("1");
+                d.kind("EmitExpr");
+                d.tok("emit");
+                d.expr(&e);
+                d
+            })
+        } else {
+            parse(src, "t", Default::default(), WhitespaceConfig::default()).map(|ast| {
+                let mut d = Dump::default();
+                d.stmt(&ast);
+                d
+            })
+        }
     });
     let dump = match parsed {
         Ok(Ok(d)) => d,
@@ -957,7 +1015,18 @@ fn run_one(src: &str) -> String {
     let env = mk_env();
     let globals: BTreeSet<String> = env.globals().map(|(k, _)| k.to_string()).collect();
     fields.push(format!("\"globals\":{}", json_list(globals.iter().cloned())));
-    let tmpl = match guarded(|| env.template_from_str(src)) {
+    enum Subject<'a> {
+        T(minijinja::Template<'a, 'a>),
+        E(minijinja::Expression<'a, 'a>),
+    }
+    let compiled = guarded(|| {
+        if is_expr {
+            env.compile_expression(src).map(Subject::E)
+        } else {
+            env.template_from_str(src).map(Subject::T)
+        }
+    });
+    let tmpl = match compiled {
         Ok(Ok(t)) => t,
         Ok(Err(e)) => {
             fields.push(format!("\"compile\":{}", json_str(&format!("err:{:?}", e.kind()))));
@@ -969,14 +1038,18 @@ fn run_one(src: &str) -> String {
         }
     };
     fields.push("\"compile\":\"ok\"".into());
-    let und: BTreeSet<String> = match guarded(|| tmpl.undeclared_variables(false)) {
+    let analyse = |nested: bool| match &tmpl {
+        Subject::T(t) => t.undeclared_variables(nested),
+        Subject::E(e) => e.undeclared_variables(nested),
+    };
+    let und: BTreeSet<String> = match guarded(|| analyse(false)) {
         Ok(s) => s.into_iter().collect(),
         Err(p) => {
             fields.push(format!("\"analysis\":{}", json_str(&format!("panic:{}", p))));
             return format!("{{{}}}", fields.join(","));
         }
     };
-    let nested: BTreeSet<String> = match guarded(|| tmpl.undeclared_variables(true)) {
+    let nested: BTreeSet<String> = match guarded(|| analyse(true)) {
         Ok(s) => s.into_iter().collect(),
         Err(p) => {
             fields.push(format!("\"analysis\":{}", json_str(&format!("panic:{}", p))));
@@ -992,7 +1065,10 @@ fn run_one(src: &str) -> String {
     for which in 0..N_CONTEXTS {
         let rec = mk_context(which, seed);
         let ctx = Value::from_dyn_object(rec.clone());
-        let res = guarded(|| tmpl.render(ctx));
+        let res = guarded(|| match &tmpl {
+            Subject::T(t) => t.render(ctx).map(|_| ()),
+            Subject::E(e) => e.eval(ctx).map(|_| ()),
+        });
         outcomes.push(match res {
             Ok(Ok(_)) => "ok".to_string(),
             Ok(Err(e)) => {
@@ -1012,33 +1088,116 @@ fn run_one(src: &str) -> String {
     format!("{{{}}}", fields.join(","))
 }
 
+fn n_generated(tier: &str) -> usize {
+    if tier == "thorough" {
+        100_000
+    } else {
+        3_000
+    }
+}
+
+/// the deterministic case sequence: corpus first, then seeded random templates
+fn for_each_source(tier: &str, f: &mut dyn FnMut(&str)) {
+    for src in CORPUS.iter() {
+        f(src);
+    }
+    let mut master = Rng::new(seed_from_env());
+    for i in 0..n_generated(tier) {
+        let s = master.next();
+        let mut g = Gen { rng: Rng::new(s), budget: 0 };
+        // sizes: mostly small (few executions), some larger
+        g.budget = match i % 4 {
+            0 => 12,
+            1 => 25,
+            2 => 45,
+            _ => 80,
+        };
+        let src = if i % 6 == 5 {
+            format!("{}{}", EXPR_MARK, g.expr(0))
+        } else {
+            g.body(0, false, false)
+        };
+        f(&src);
+    }
+}
+
+fn nth_source(tier: &str, n: usize) -> String {
+    let mut idx = 0usize;
+    let mut found = String::new();
+    for_each_source(tier, &mut |src| {
+        if idx == n {
+            found = src.to_string();
+        }
+        idx += 1;
+    });
+    found
+}
+
 fn main() {
+    // deep (but bounded: recursion limit) macro/loop nesting needs more than the default
+    // main-thread stack in a debug build
+    let t = std::thread::Builder::new().stack_size(1 << 30).spawn(real_main).unwrap();
+    if t.join().is_err() {
+        std::process::exit(101);
+    }
+}
+
+fn real_main() {
     quiet_panics();
     let args: Vec<String> = std::env::args().collect();
     let stdout = std::io::stdout();
     let mut out = std::io::BufWriter::new(stdout.lock());
     match args.get(1).map(|s| s.as_str()) {
         Some("gen") => {
+            // The engine can abort the process (e.g. rendering a namespace that contains itself
+            // overflows the stack), so the cases run in worker processes; an aborted case is
+            // reported as such and the run continues behind it.
+            let tier = args.get(2).map(|s| s.as_str()).unwrap_or("quick").to_string();
+            let total = CORPUS.len() + n_generated(&tier);
+            let mut start = 0usize;
+            while start < total {
+                let mut child = std::process::Command::new(std::env::current_exe().unwrap())
+                    .args(["worker", &tier, &start.to_string()])
+                    .stdout(std::process::Stdio::piped())
+                    .stderr(std::process::Stdio::null())
+                    .spawn()
+                    .unwrap();
+                let mut got = 0usize;
+                {
+                    use std::io::BufRead;
+                    let rd = std::io::BufReader::new(child.stdout.take().unwrap());
+                    for line in rd.lines() {
+                        let line = line.unwrap();
+                        writeln!(out, "{}", line).unwrap();
+                        got += 1;
+                    }
+                }
+                let status = child.wait().unwrap();
+                start += got;
+                if !status.success() && start < total {
+                    let src = nth_source(&tier, start);
+                    writeln!(out, "{}\t{{\"parse\":\"abort\"}}", hex(src.as_bytes())).unwrap();
+                    start += 1;
+                }
+            }
+        }
+        Some("worker") | Some("srcs") => {
+            let only_sources = args[1] == "srcs";
             let tier = args.get(2).map(|s| s.as_str()).unwrap_or("quick");
-            let n = if tier == "thorough" { 100_000 } else { 3_000 };
-            let seed = seed_from_env();
-            for src in CORPUS.iter() {
-                writeln!(out, "{}\t{}", hex(src.as_bytes()), run_one(src)).unwrap();
-            }
-            let mut master = Rng::new(seed);
-            for i in 0..n {
-                let s = master.next();
-                let mut g = Gen { rng: Rng::new(s), budget: 0 };
-                // sizes: mostly small (many decisions stay enumerable), some larger
-                g.budget = match i % 4 {
-                    0 => 12,
-                    1 => 25,
-                    2 => 45,
-                    _ => 80,
-                };
-                let src = g.body(0, false, false);
-                writeln!(out, "{}\t{}", hex(src.as_bytes()), run_one(&src)).unwrap();
-            }
+            let start: usize = args.get(3).and_then(|s| s.parse().ok()).unwrap_or(0);
+            let mut idx = 0usize;
+            let mut emit = |out: &mut dyn Write, src: &str| {
+                if idx >= start {
+                    if only_sources {
+                        writeln!(out, "{}", hex(src.as_bytes())).unwrap();
+                    } else {
+                        writeln!(out, "{}\t{}", hex(src.as_bytes()), run_one(src)).unwrap();
+                        out.flush().unwrap();
+                    }
+                }
+                idx += 1;
+            };
+            for_each_source(tier, &mut |src| emit(&mut out, src));
         }
         Some("one") => {
             let src = String::from_utf8(unhex(&args[2])).unwrap();
@@ -1049,7 +1208,7 @@ fn main() {
             writeln!(out, "{}\t{}", hex(src.as_bytes()), run_one(&src)).unwrap();
         }
         _ => {
-            eprintln!("usage: c18 gen <quick|thorough> | one <hex> | text <src>");
+            eprintln!("usage: c18 gen <quick|thorough> | srcs <tier> | one <hex> | text <src>");
             std::process::exit(2);
         }
     }
